@@ -183,6 +183,7 @@ package router
 // which broadcasts it on every link - see /verif/KNOWN_FINDINGS.txt, C09 "announcement built for one link is sent on all".)
 //@ func AnnouncePingHandler.Send
 //@   option clausesonly noinv
+//@   ensures success-means-announced [C09]: result == nil ==> called("Router.sendPingMsg")
 //@   callsite Router.sendPingMsg announcement-built-for-one-link-goes-only-to-that-link [C09]: arg1.peer == peer
 
 // ---- gossip (C08, C09) -----------------------------------------------------------------------------------
